@@ -355,7 +355,7 @@ def _c12():
 
         def setup():
             m = fresh_module()
-            alone = [body(m, ka, da)(), body(m, kb, db)()]  # what each gets alone (sequentially, fresh module)
+            alone = [threads.Alone(threads.alone(body(m, ka, da))), threads.Alone(threads.alone(body(m, kb, db)))]  # sequentially, fresh module
             m = fresh_module()
             return [body(m, ka, da), body(m, kb, db)], threads.judge_values(alone)
 
@@ -421,7 +421,7 @@ def _c15():
         def setup():
             inner, outer = _generated_classes()
             bodies = make_bodies(inner, outer)
-            alone = [b() for b in bodies]  # what each gets alone
+            alone = [threads.Alone(threads.alone(b)) for b in bodies]  # what each gets alone
             return bodies, threads.judge_values(alone)
 
         return setup
